@@ -747,6 +747,73 @@ func verifAssume(cond bool) {}
 //@   ensures [C03] @installs result == b && b.externalAuth == a
 //@   ensures [C03] @addsonlythis inset(elems(b.config.SchemeOpts), AuthenticationSchemeExternal) && subset(old(elems(b.config.SchemeOpts)), elems(b.config.SchemeOpts)) && len(b.config.SchemeOpts) <= old(len(b.config.SchemeOpts)) + 1 && (old(inset(elems(b.config.SchemeOpts), AuthenticationSchemeExternal)) ==> len(b.config.SchemeOpts) == old(len(b.config.SchemeOpts)))
 
+// The client builder's choices: the selector installed by Encryption/Compression answers with
+// exactly the option it was built with, whatever the server offers (C09: what the client then
+// applies is the negotiated value, which the channel checks against the server's confirmation).
+//@ func (*ClientBuilder).Encryption :: (b, e) (result)
+//@   props C09
+//@   requires b != nil && b.config != nil && !sameobj(b.config, b)
+//@   modifies b.config.EncryptSelector
+//@   ensures [C09] @installs result == b && b.config.EncryptSelector != nil
+//@ func (*ClientBuilder).Encryption$1 :: (options) (result)
+//@   props C09
+//@   modifies nothing
+//@   ensures [C09] @choosesconfigured result == e
+//@ func (*ClientBuilder).Compression :: (b, c) (result)
+//@   props C09
+//@   requires b != nil && b.config != nil && !sameobj(b.config, b)
+//@   modifies b.config.CompSelector
+//@   ensures [C09] @installs result == b && b.config.CompSelector != nil
+//@ func (*ClientBuilder).Compression$1 :: (options) (result)
+//@   props C09
+//@   modifies nothing
+//@   ensures [C09] @choosesconfigured result == c
+//@ func (*ClientBuilder).ChannelBufferSize :: (b, bufferSize) (result)
+//@   props C04
+//@   requires b != nil && b.config != nil && !sameobj(b.config, b)
+//@   modifies b.config.ChannelBufferSize
+//@   ensures [C04] @setsonlythis result == b && b.config.ChannelBufferSize == bufferSize
+
+// The callbacks and the node given to the builder are the ones the server is configured with:
+// only that field of the configuration changes (C03: "the configured ... callback", "the
+// registration callback has supplied the node address"; C07: "the server's node as sender";
+// C14: the established/finished callbacks).
+//@ func (*ServerBuilder).Register :: (b, register) (result)
+//@   props C03 C17
+//@   requires b != nil && b.config != nil && !sameobj(b.config, b)
+//@   modifies b.config.Register
+//@   ensures [C03,C17] @installs result == b && b.config.Register == register
+//@ func (*ServerBuilder).Established :: (b, established) (result)
+//@   props C14
+//@   requires b != nil && b.config != nil && !sameobj(b.config, b)
+//@   modifies b.config.Established
+//@   ensures [C14] @installs result == b && b.config.Established == established
+//@ func (*ServerBuilder).Finished :: (b, finished) (result)
+//@   props C14
+//@   requires b != nil && b.config != nil && !sameobj(b.config, b)
+//@   modifies b.config.Finished
+//@   ensures [C14] @installs result == b && b.config.Finished == finished
+//@ func (*ServerBuilder).Name :: (b, name) (result)
+//@   props C07
+//@   requires b != nil && b.config != nil && !sameobj(b.config, b)
+//@   modifies b.config.Node.Name
+//@   ensures [C07] @setsonlythis result == b && b.config.Node.Name == name
+//@ func (*ServerBuilder).Domain :: (b, domain) (result)
+//@   props C07
+//@   requires b != nil && b.config != nil && !sameobj(b.config, b)
+//@   modifies b.config.Node.Domain
+//@   ensures [C07] @setsonlythis result == b && b.config.Node.Domain == domain
+//@ func (*ServerBuilder).Instance :: (b, instance) (result)
+//@   props C07
+//@   requires b != nil && b.config != nil && !sameobj(b.config, b)
+//@   modifies b.config.Node.Instance
+//@   ensures [C07] @setsonlythis result == b && b.config.Node.Instance == instance
+//@ func (*ServerBuilder).ChannelBufferSize :: (b, bufferSize) (result)
+//@   props C04
+//@   requires b != nil && b.config != nil && !sameobj(b.config, b)
+//@   modifies b.config.ChannelBufferSize
+//@   ensures [C04] @setsonlythis result == b && b.config.ChannelBufferSize == bufferSize
+
 // Adding a listener adds a listener: the negotiation policy, the scheme list and the
 // callbacks of the configuration are outside the frame of the Listen* setters (C09/C10:
 // the policy is server-wide, so a setter that widens it for one transport widens it for all).
